@@ -294,8 +294,61 @@ Definition find_symbol_at (S : symbol_map) (f : fileid) (p : N) : sres (option (
   | Some s => sbind (symbol S s) (fun e => SOk (Some (s, e)))
   end.
 
-(** `Record::find_field` / `Record::is_subclass_of`: recursion through `parent_list` (fuel = depth) *)
-Fixpoint find_field (fuel : nat) (S : symbol_map) (rid : N) (n : name) : sres (option N) :=
+(** `Record::find_field` / `Record::is_subclass_of` (after fix 1b571ae): recursion through `parent_list` with a
+    `visited: &mut HashSet<RecordId>` threaded through -- each ancestor is searched once.  The set is a list;
+    `visited.insert(p)` returning false = [p] already a member.  Fuel bounds the recursion DEPTH; the
+    theorems show that (number of records + 1) is always enough, for every parent relation (even a cyclic one). *)
+Definition vis_mem (p : N) (vis : list N) : bool := existsb (N.eqb p) vis.
+
+Fixpoint find_field_in (fuel : nat) (S : symbol_map) (rid : N) (n : name) (visited : list N)
+  : sres (option N * list N) :=
+  match fuel with
+  | O => SErr EOutOfFuel
+  | Datatypes.S fuel' =>
+      sbind (record S rid) (fun e =>
+      match amap_get (p_fields (e_payload e)) n with
+      | Some f => SOk (Some f, visited)
+      | None =>
+          (fix go (ps : list N) (vis : list N) : sres (option N * list N) :=
+             match ps with
+             | [] => SOk (None, vis)
+             | p :: ps' =>
+                 if vis_mem p vis then go ps' vis
+                 else match find_field_in fuel' S p n (p :: vis) with
+                      | SOk (Some f, vis') => SOk (Some f, vis')
+                      | SOk (None, vis') => go ps' vis'
+                      | SErr e => SErr e
+                      end
+             end) (p_parents (e_payload e)) visited
+      end)
+  end.
+Definition find_field (fuel : nat) (S : symbol_map) (rid : N) (n : name) : sres (option N) :=
+  sbind (find_field_in fuel S rid n []) (fun r => SOk (fst r)).
+
+Fixpoint is_subclass_of_in (fuel : nat) (S : symbol_map) (rid other : N) (visited : list N) : sres (bool * list N) :=
+  match fuel with
+  | O => SErr EOutOfFuel
+  | Datatypes.S fuel' =>
+      sbind (record S rid) (fun e =>
+      let ps := p_parents (e_payload e) in
+      if existsb (N.eqb other) ps then SOk (true, visited)
+      else (fix go (ps : list N) (vis : list N) : sres (bool * list N) :=
+              match ps with
+              | [] => SOk (false, vis)
+              | p :: ps' =>
+                  if vis_mem p vis then go ps' vis
+                  else match is_subclass_of_in fuel' S p other (p :: vis) with
+                       | SOk (true, vis') => SOk (true, vis')
+                       | SOk (false, vis') => go ps' vis'
+                       | SErr e => SErr e
+                       end
+              end) ps visited)
+  end.
+Definition is_subclass_of (fuel : nat) (S : symbol_map) (rid other : N) : sres bool :=
+  sbind (is_subclass_of_in fuel S rid other []) (fun r => SOk (fst r)).
+
+(** the same two functions BEFORE fix 1b571ae (an ancestor is searched once per inheritance path) *)
+Fixpoint find_field_v0 (fuel : nat) (S : symbol_map) (rid : N) (n : name) : sres (option N) :=
   match fuel with
   | O => SErr EOutOfFuel
   | Datatypes.S fuel' =>
@@ -307,7 +360,7 @@ Fixpoint find_field (fuel : nat) (S : symbol_map) (rid : N) (n : name) : sres (o
              match ps with
              | [] => SOk None
              | p :: ps' =>
-                 match find_field fuel' S p n with
+                 match find_field_v0 fuel' S p n with
                  | SOk (Some f) => SOk (Some f)
                  | SOk None => go ps'
                  | SErr e => SErr e
@@ -316,23 +369,52 @@ Fixpoint find_field (fuel : nat) (S : symbol_map) (rid : N) (n : name) : sres (o
       end)
   end.
 
-Fixpoint is_subclass_of (fuel : nat) (S : symbol_map) (rid other : N) : sres bool :=
+(** number of invocations of the recursive function for one lookup: new and old version *)
+Fixpoint find_field_calls (fuel : nat) (S : symbol_map) (rid : N) (n : name) (visited : list N) : nat * list N :=
   match fuel with
-  | O => SErr EOutOfFuel
+  | O => (1%nat, visited)
   | Datatypes.S fuel' =>
-      sbind (record S rid) (fun e =>
-      let ps := p_parents (e_payload e) in
-      if existsb (N.eqb other) ps then SOk true
-      else (fix go (ps : list N) : sres bool :=
-              match ps with
-              | [] => SOk false
-              | p :: ps' =>
-                  match is_subclass_of fuel' S p other with
-                  | SOk true => SOk true
-                  | SOk false => go ps'
-                  | SErr e => SErr e
-                  end
-              end) ps)
+      match get_entry S (KRecord, rid) with
+      | None => (1%nat, visited)
+      | Some e =>
+          match amap_get (p_fields (e_payload e)) n with
+          | Some _ => (1%nat, visited)
+          | None =>
+              (fix go (ps : list N) (vis : list N) (acc : nat) : nat * list N :=
+                 match ps with
+                 | [] => (acc, vis)
+                 | p :: ps' =>
+                     if vis_mem p vis then go ps' vis acc
+                     else let '(c, vis') := find_field_calls fuel' S p n (p :: vis) in
+                          match find_field_in fuel' S p n (p :: vis) with
+                          | SOk (None, _) => go ps' vis' (acc + c)%nat
+                          | _ => ((acc + c)%nat, vis')
+                          end
+                 end) (p_parents (e_payload e)) visited 1%nat
+          end
+      end
+  end.
+Fixpoint find_field_calls_v0 (fuel : nat) (S : symbol_map) (rid : N) (n : name) : nat :=
+  match fuel with
+  | O => 1%nat
+  | Datatypes.S fuel' =>
+      match get_entry S (KRecord, rid) with
+      | None => 1%nat
+      | Some e =>
+          match amap_get (p_fields (e_payload e)) n with
+          | Some _ => 1%nat
+          | None =>
+              (fix go (ps : list N) (acc : nat) : nat :=
+                 match ps with
+                 | [] => acc
+                 | p :: ps' =>
+                     match find_field_v0 fuel' S p n with
+                     | SOk None => go ps' (acc + find_field_calls_v0 fuel' S p n)%nat
+                     | _ => (acc + find_field_calls_v0 fuel' S p n)%nat
+                     end
+                 end) (p_parents (e_payload e)) 1%nat
+          end
+      end
   end.
 
 (** ---- mutable api: one constructor per logged call *)
